@@ -45,6 +45,9 @@ class Prop(PropBase):
                     ['ff', 'range', 'valid', 'valid2', 'ff'], ['valid', 'ff', 'valid2'], ['range'], ['edge', 'ff'],
                     # packets that are not "of the right length and identifier" but carry a perfectly good table: they must not open the gate
                     ['badid', 'valid2'], ['badid'], ['badlen', 'valid2'], ['badid', 'badlen', 'valid', 'badid'], ['badid', 'valid2']])
+                # every type meets every kind of table / packet in the first three scenarios, whatever the seed
+                if r < 3:
+                    plan = [['ff', 'valid', 'valid2'], ['badid', 'range', 'valid2', 'ff'], ['badlen', 'edge', 'dup', 'valid']][r]
                 idpos = 2 + (r * 5 + len(scn_all)) % (len(l.difop_id) - 2)      # every identifier byte behind the two dispatch bytes in turn
                 for kind in plan:
                     for k in range(rng.choice([0, 1, 2])):
